@@ -58,8 +58,11 @@ package keeper
 //              no longer than the voter list (at least one of the len(Voters)+1 members stays).
 // ri_len:      hence len(OffBoarding) <= len(Voters) is preserved.
 
+// C18 (import acceptance): relayer genesis import panics unless every exported voter record passes (*Voter).Validate, i.e.
+// carries a 96-byte BLS vote key; every record written here must therefore have one, unless it keeps the key of the record it replaces.
 //@ func (Keeper).ProcessRelayerRequest
-//@ property C16 C09 C19
+//@ property C16 C09 C19 C18
+//@ writesite relayer.Voters [C18] importable: (has(st.relayer.Voters, key) && st.relayer.Voters[key].VoteKey == val.VoteKey) || len(val.VoteKey) == goatcrypto.PubkeyLength
 //@ let ACT = types.VOTER_STATUS_ACTIVATED
 //@ let OFF = types.VOTER_STATUS_OFF_BOARDING
 //@ let PEND = types.VOTER_STATUS_PENDING
